@@ -627,8 +627,12 @@ def plumbing(ctx):
     box = T.tup([V('i0'), V('i1'), V('j0'), V('j1')])
     fld = T.ite(T.cmp('is', V('field'), T.NONE), C('count'), V('field'))
     n = 0
-    for e in calls(fm, (f'{RQ}.FillLowerRangeQuery2D', f'{RQ}.DirectRangeQuery2D')):
-        n += 1
+    engines = {G(f'{RQ}.FillLowerRangeQuery2D'), G(f'{RQ}.DirectRangeQuery2D')}
+    sites = [e for e in fm.events if e.kind == 'call' and not e.d.get('in_lambda')
+             and (e.f in engines or (e.f[0] == 'ite' and {e.f[2], e.f[3]} == engines))]
+    for e in sites:
+        # an engine class chosen by a conditional expression and constructed once stands for both constructions
+        n += 2 if e.f[0] == 'ite' else 1
         ok = len(e.args) >= 4 and e.args[0] == (rd[0].term if rd else None) and e.args[1] == fld \
             and e.args[2] == box and e.args[3] == V('chunksize')
         ctx.check(ok, R, f'api.matrix.engine#{n}', ctx.where(fm, e), found=e.term,
